@@ -561,15 +561,20 @@ class RandomPolicy(ReplyPolicy):
     """Seeded adversary: each reply is duplicated / delayed / dropped with the given probabilities, and after
     each exchange up to `max_stale` replies generated earlier in the session are delivered again."""
 
-    def __init__(self, rng, p_dup=0.2, p_delay=0.15, p_drop=0.0, p_stale=0.2, max_dup=3, max_delay=4, max_stale=2):
+    def __init__(self, rng, p_dup=0.2, p_delay=0.15, p_drop=0.0, p_stale=0.2, max_dup=3, max_delay=4, max_stale=2,
+                 ports=None):
         ReplyPolicy.__init__(self)
         self.rng, self.p_dup, self.p_delay, self.p_drop, self.p_stale = rng, p_dup, p_delay, p_drop, p_stale
         self.max_dup, self.max_delay, self.max_stale = max_dup, max_delay, max_stale
+        self.ports = ports            # only replies on these ports are disturbed / replayed (None = all)
 
     def route(self, link, request, replies):
         rng = self.rng
         out = []
         for pkt in replies:
+            if self.ports is not None and pkt[0] not in self.ports:
+                out.append((0, pkt))
+                continue
             x = rng.random()
             if x < self.p_drop:
                 continue
@@ -581,9 +586,10 @@ class RandomPolicy(ReplyPolicy):
                 out.append((rng.randint(1, self.max_delay), pkt))
             else:
                 out.append((0, pkt))
-        if link.history and rng.random() < self.p_stale:
+        hist = link.history if self.ports is None else [p for p in link.history if p[0] in self.ports]
+        if hist and rng.random() < self.p_stale:
             for _ in range(rng.randint(1, self.max_stale)):
-                out.append((rng.randint(0, self.max_delay), link.history[rng.randrange(len(link.history))]))
+                out.append((rng.randint(0, self.max_delay), hist[rng.randrange(len(hist))]))
         return out
 
 
@@ -933,6 +939,34 @@ class _Active:
         _CURRENT[0] = self.prev
 
 
+def _worker_lock(w):
+    return getattr(w, 'wait_lock', None) or getattr(w, '_lock')
+
+
+def worker_ready(w):
+    """can the run() loop of a _ParamUpdater / _ExtendedTypeFetcher make a step (request queued, lock free)?"""
+    return not w.request_queue.empty() and not _worker_lock(w).locked()
+
+
+def step_worker(w):
+    """exactly one iteration of the real run() loop of a _ParamUpdater / _ExtendedTypeFetcher, in the
+    calling thread (precondition: worker_ready(w))"""
+    q = w.request_queue
+    orig = q.get
+
+    def get_once(*a, **kw):
+        item = orig(block=False)
+        w._should_close = True
+        return item
+    q.get = get_once
+    try:
+        w._should_close = False
+        w.run()
+    finally:
+        del q.get
+        w._should_close = False
+
+
 class SyncSession(_SessionBase):
     """The real Crazyflie object driven single-threaded against the simulated device.
 
@@ -964,29 +998,11 @@ class SyncSession(_SessionBase):
     def _register_worker(self, w):
         self.workers.append(w)
 
-    @staticmethod
-    def _worker_lock(w):
-        return getattr(w, 'wait_lock', None) or getattr(w, '_lock')
-
     def _worker_ready(self, w):
-        return not w.request_queue.empty() and not self._worker_lock(w).locked()
+        return worker_ready(w)
 
     def _step_worker(self, w):
-        """exactly one iteration of the real run() loop of a _ParamUpdater / _ExtendedTypeFetcher"""
-        q = w.request_queue
-        orig = q.get
-
-        def get_once(*a, **kw):
-            item = orig(block=False)
-            w._should_close = True
-            return item
-        q.get = get_once
-        try:
-            w._should_close = False
-            w.run()
-        finally:
-            del q.get
-            w._should_close = False
+        step_worker(w)
 
     def step(self, idle=('workers', 'timers', 'flush')):
         """one atomic action, in a fixed priority order; returns its kind or None when quiescent:
